@@ -38,7 +38,7 @@ chk("C08", "MIR CFG must-pass-through: every non-step exit of the interpreter lo
     "Trusted: rustc MIR. Decides the state-restoration clause; equality of printed output additionally assumes steps are deterministic.",
     "DESIGN.md section 4 C08")
 
-chk("C26", "MIR CFG: exit(1) edge-dominated by failures>0 and reached unconditionally; sibling agreement of the two failure-count closures; per-iteration must-pass pop_to_toplevel and min=max=1 verdict rows; SELECTION-FILTER (test selection, in loop or iterator form, depends only on is-a-test and the -n filter); NO-SHARED-BUDGET (no run-wide tick/stack limit on the garden test path)",
+chk("C26", "MIR CFG: exit(1) edge-dominated by failures>0 and reached unconditionally; sibling agreement of the two failure-count closures; per-iteration must-pass pop_to_toplevel and min=max=1 verdict rows; SELECTION-FILTER (test selection, in loop or iterator form, depends only on is-a-test and the -n filter); NO-SHARED-BUDGET (no run-wide tick/stack limit on the garden test path); ALL-FILES-LOADED (path count: main hands exactly one entry per listed file to run_tests_in_files)",
     "The exit-status clause and the per-test reset clause hold on every CFG path of run_tests_in_files and eval_tests; counts printed and counts deciding the exit status are computed by the same predicate over the same summary.",
     "Trusted: rustc MIR. Independence with respect to namespace-level state (definitions a test mutates) is not decided.",
     "DESIGN.md section 4 C26")
@@ -58,7 +58,7 @@ chk("C31", "MIR: reset-on-dequeue must-pass, interrupt addressing provenance (lo
     "Trusted: rustc MIR. Schedules are out of reach of static analysis; these are necessary, not sufficient, conditions.",
     "DESIGN.md section 4 C31")
 
-chk("C13", "syntax-table coverage: diagonal arms of `impl PartialEq for Value_` vs the enum's variants; same-field conjunction shape per arm; != is derived; operator dispatch agreement; identity field (runtime_type or type_name) compared for enum and struct values; CONTEXT-FREE-TYPE (MIR taint: frame type bindings do not flow into built values); DICT-TYPE-ORDER-FREE (a dict's hidden value type comes from a join, another dict or a fixed type)",
+chk("C13", "syntax-table coverage: diagonal arms of `impl PartialEq for Value_` vs the enum's variants; same-field conjunction shape per arm; != is derived; operator dispatch agreement; identity field (runtime_type or type_name) compared for enum and struct values; CONTEXT-FREE-TYPE (MIR taint: frame type bindings do not flow into built values); DICT-TYPE-ORDER-FREE (a dict's hidden value type comes from a join, another dict or a fixed type); LIST-TYPE-FROM-ELEMENTS (operand provenance: a list built by adding an element never inherits the receiver's hidden element type)",
     "Coverage clauses the compiler cannot enforce because of the `_ => false` catch-all: every variant has its diagonal arm, each literal-syntax arm compares every value-carrying field of the two sides pairwise, and != is the negation on the same operands. A relation of that shape is an equivalence by induction on values; values are never computed.",
     "Trusted: syn parse of values.rs/eval.rs; std/rpds element-wise equality. NaN reflexivity is excluded by the property (finite floats). One known finding: `-0.0 == 0.0` is True although the two print differently (IEEE equality; recorded, not repaired).",
     "DESIGN.md section 4 C13")
@@ -68,12 +68,12 @@ chk("C10", "field-coverage: StackFrame fields (from the type) classified by a re
     "Trusted: rustc MIR/ADT layout facts; the field classification table (reviewed, one reason per field). Whether top-level locals of the failed input should survive is not decided.",
     "DESIGN.md section 4 C10")
 
-chk("C14", "schema conformance: symbolic evaluation of is_subtype's match arms into first-match decision table + per-arm truth conditions with argument provenance (variance), compared with the preorder schema",
+chk("C14", "schema conformance: symbolic evaluation of is_subtype's match arms into first-match decision table + per-arm truth conditions with argument provenance (variance), compared with the preorder schema; FUN-TYPE-HONEST (the parameter types of the Fun type built for a lambda literal are the types bound for its parameters)",
     "is_subtype is shown to be an instance of a schema (top, bottom, componentwise with stated variance, nominal user types, equality on parameters, mixed constructors false) whose every instance is reflexive and transitive on well-formed error-free types; variance is read off the provenance of recursive-call arguments. A proof by schema, for all types, not an enumeration.",
     "Trusted: syn parse; the boolean-block evaluator's idiom set (fails closed outside it); the paper argument that the schema implies a preorder. Error types and ill-formed arities excluded as in the property.",
     "DESIGN.md section 4 C14")
 
-chk("C15", "schema conformance: rows of unify matched against upper-bound rows of the C14 relation; fold shape of unify_all; MIR call-presence for the five combining constructs; JOIN-INPUT-COVER (every match arm's type reaches unify_all); FAIL-TOP (MIR dataflow: the type used when unification fails derives neither from the failure payload nor from an input)",
+chk("C15", "schema conformance: rows of unify matched against upper-bound rows of the C14 relation; fold shape of unify_all; MIR call-presence for the five combining constructs; JOIN-INPUT-COVER (every match arm's type reaches unify_all); FAIL-TOP (MIR dataflow: the type used when unification fails derives neither from the failure payload nor from an input); NO-PSEUDO-JOIN (no construct returns one of two branch types selected by is_subtype)",
     "Every Some(X) that unify can return is justified as an upper bound by a row of the subtype schema under the condition it is returned, unify_all is the left fold from bottom, and list/dict/if/try/match inference reach these functions. By induction the combined type is a supertype of every input, and equal inputs return themselves.",
     "Trusted: syn parse, rustc MIR call graph. How each caller uses a successful result (hover text) is not decided; what it substitutes on failure is (FAIL-TOP).",
     "DESIGN.md section 4 C15")
@@ -98,12 +98,12 @@ chk("C07", "symbolic sequence analysis over the syntax tree: values popped vs va
     "Trusted: syn parse, rustc MIR; the walker's idiom set (vec! literals, pushes, for-loops over args, mirrored pop vectors, optional pop groups) - a construction outside it is reported, not assumed.",
     "DESIGN.md section 4 C07")
 
-chk("C12", "table inverse check (escape/unescape match arms) + exact regular-language decision: product of the printed-literal DFA with STRING_RE's leftmost-first DFA (regex-automata), DFA inclusion for float/int text; NUMBER-PARSE (literal values come from std's parse on the `_`-stripped token text; numbers printed with std Display); UNIT-MIX (MIR unit dataflow: no char-sequence index derives from a byte offset, no str slice bound from a character count)",
+chk("C12", "table inverse check (escape/unescape match arms) + exact regular-language decision: product of the printed-literal DFA with STRING_RE's leftmost-first DFA (regex-automata), DFA inclusion for float/int text; NUMBER-PARSE (literal values come from std's parse on the `_`-stripped token text; numbers printed with std Display); UNIT-MIX (MIR unit dataflow: no char-sequence index derives from a byte offset, no str slice bound from a character count); PRINT-CONTEXT-FREE (no display arm branches on the printed text of a child value)",
     "Lexical clauses decided exactly for all strings: every literal escape_string_literal can print is read back by the lexer as exactly one token ending at its closing quote, whatever follows it, and unescape inverts escape row by row; printed finite floats and ints are whole number tokens. Not sampled; a failing tree yields a witness literal.",
     "Trusted: regex-automata's DFA (same engine family as the regex crate), syn parse, Rust's float Display shape. Compound values and parse->equal-value are not decided.",
     "DESIGN.md section 4 C12")
 
-chk("C23", "regex newline-reachability by DFA search selects multi-line token kinds; syntax provenance rules for end line/column of their Position literals and for every byte-offset advance / slice bound in the lexer loop; field-shape of Position::merge and CheckDiagnostic export; POSITION-TRIPLE (each lexer Position literal: start from from_offset(start_offset), end from from_offset(end_offset) or start + one common length); POSITION-GROUP / POSITION-PAIRS (MIR, crate-wide: a position edited or assembled from other positions keeps offset, line and column of each end together); UNIT-MIX over the whole crate",
+chk("C23", "regex newline-reachability by DFA search selects multi-line token kinds; syntax provenance rules for end line/column of their Position literals and for every byte-offset advance / slice bound in the lexer loop; field-shape of Position::merge and CheckDiagnostic export; POSITION-TRIPLE (each lexer Position literal: start from from_offset(start_offset), end from from_offset(end_offset) or start + one common length); POSITION-GROUP / POSITION-PAIRS (MIR, crate-wide: a position edited or assembled from other positions keeps offset, line and column of each end together); UNIT-MIX over the whole crate; UTF16-UNITS (shared with C29)",
     "Lexical clauses for all input texts: offsets advance only by character-boundary quantities, multi-line tokens take their end line/column from the end offset, merge pairs start fields with the first operand and end fields with the later end, exported line numbers are uniformly 1-based. Other position arithmetic is not decided.",
     "Trusted: syn parse, regex-automata DFA. Fix positions are covered as far as their field pairing goes (POSITION-GROUP/PAIRS); LSP conversions are under C29; the numerical value of computed offsets is not decided.",
     "DESIGN.md section 4 C23")
